@@ -178,7 +178,7 @@ def run(ctx):
     # (runs concurrently with G and V: the JVMs and the Python worker processes share the cores)
     mex = cf.ThreadPoolExecutor(max_workers=2)
     m_futs = [mex.submit(_retrying, ctx.model, 'WalkGen', 'WalkGenMC' if quick else 'WalkGenMC_thorough', required=ACTIONS,
-                         timeout=3000, workers=8 if quick else 12, heap='2g' if quick else '6g'),
+                         timeout=3000, workers=8 if quick else 12, heap='2g' if quick else '4g'),
               mex.submit(_retrying, ctx.model, 'WalkGen', 'WalkGenLive', required=ACTIONS, timeout=1500, workers=2, heap='1g')]
     ctx.exhaustive = False
 
@@ -192,8 +192,8 @@ def run(ctx):
         else:
             gens = [({'N': 3, 'MaxMut': 1, 'MaxPark': 1, 'MaxSend': 1, 'Shapes': '1, 2, 3, 4'}, 0, 'both'),
                     ({'N': 2, 'MaxMut': 2, 'MaxPark': 2, 'MaxSend': 1, 'Shapes': '1, 3'}, 0, 'both'),
-                    ({'N': 5, 'MaxMut': 3, 'MaxPark': 2, 'MaxSend': 2, 'Shapes': '1, 2, 3, 4'}, 3000, 'both'),
-                    ({'N': 6, 'MaxMut': 2, 'MaxPark': 2, 'MaxSend': 2, 'Shapes': '1, 2, 3, 4'}, 1500, 'both')]
+                    ({'N': 5, 'MaxMut': 3, 'MaxPark': 2, 'MaxSend': 2, 'Shapes': '1, 2, 3, 4'}, 2000, 'both'),
+                    ({'N': 6, 'MaxMut': 2, 'MaxPark': 2, 'MaxSend': 2, 'Shapes': '1, 2, 3, 4'}, 1000, 'both')]
         items = []
         tid = 0
         nbeh = 0
@@ -224,7 +224,7 @@ def run(ctx):
         gstats.update(st)
 
     # -- V random --------------------------------------------------------------------------------------------------------
-    n_rand = 3000 if quick else 60000
+    n_rand = 3000 if quick else 40000
     base = 1_000_000
     specs = [(base + i, ctx.seed * 1_000_003 + i) for i in range(n_rand)]
     res_r = _pool_map(_shard_random, specs, 10, max(50, n_rand // 28 + 1))
